@@ -2376,3 +2376,79 @@ func ruleNoSharedOwnership(c *eng.Ctx) {
 		c.Ok(R, eng.FuncName(fn)+"#ownsReader", fn.Pos(), "ownership is not inherited (the field keeps its zero value)")
 	}
 }
+
+// R9.7 [C09]
+func ruleParagraphPageCoordinates(c *eng.Ctx) {
+	const R = "R9.7-PARAGRAPH-PAGE-COORDINATES"
+	c.Rule(R, "the reading order normalises the X position of the lines of a column section to the column's left edge; the paragraphs it hands out get that offset added back to their bounding box. Headings and lists are located in page coordinates and the page elements are assembled by matching bounding boxes: paragraphs left in column coordinates are not recognised as the heading or list they are, and their text is emitted twice", 1, 0)
+	gp := c.P.Func("layout.(*ReadingOrderResult).GetParagraphs")
+	if gp == nil {
+		c.Undec(R, "layout.(*ReadingOrderResult).GetParagraphs", token.NoPos, "anchor not found")
+		return
+	}
+	// is there a normalisation at all? (a store  line.BBox.X = line.BBox.X - <offset>  in package layout)
+	normalised := false
+	for _, fn := range c.P.ModuleFuncs() {
+		if fn.Pkg != gp.Pkg {
+			continue
+		}
+		eng.Instrs(fn, false, func(in ssa.Instruction) {
+			st, ok := in.(*ssa.Store)
+			if !ok {
+				return
+			}
+			fr, ok := eng.AsField(st.Addr)
+			if !ok || fr.Field != "X" {
+				return
+			}
+			b, ok := st.Val.(*ssa.BinOp)
+			if !ok || b.Op != token.SUB {
+				return
+			}
+			for w := range eng.Slice(st.Addr, nil) {
+				if f2, ok := eng.AsField(w); ok && f2.Field == "BBox" && strings.HasSuffix(f2.Struct, "layout.Line") {
+					normalised = true
+				}
+			}
+		})
+	}
+	if !normalised {
+		c.Ok(R, "layout.(*ReadingOrderResult).GetParagraphs#page-coordinates", gp.Pos(), "line positions are not normalised: nothing to add back")
+		return
+	}
+	restored := false
+	for _, h := range eng.Cluster(gp, 2) {
+		eng.Instrs(h, false, func(in ssa.Instruction) {
+			st, ok := in.(*ssa.Store)
+			if !ok {
+				return
+			}
+			fr, ok := eng.AsField(st.Addr)
+			if !ok || fr.Field != "X" {
+				return
+			}
+			b, ok := st.Val.(*ssa.BinOp)
+			if !ok || b.Op != token.ADD {
+				return
+			}
+			para := false
+			for w := range eng.Slice(st.Addr, nil) {
+				if f2, ok := eng.AsField(w); ok && f2.Field == "BBox" && strings.HasSuffix(f2.Struct, "layout.Paragraph") {
+					para = true
+				}
+			}
+			fromSection := false
+			for _, side := range []ssa.Value{b.X, b.Y} {
+				for w := range eng.Slice(side, nil) {
+					if f2, ok := eng.AsField(w); ok && strings.HasSuffix(f2.Struct, "layout.ReadingSection") {
+						fromSection = true
+					}
+				}
+			}
+			if para && fromSection {
+				restored = true
+			}
+		})
+	}
+	c.Check(restored, R, "layout.(*ReadingOrderResult).GetParagraphs#page-coordinates", gp.Pos(), "the column offset is added back to the paragraph boxes", "paragraphs leave the reading order with X positions relative to their column although headings and lists are in page coordinates: the bounding-box match in buildElementTree fails and heading text is emitted a second time as a paragraph")
+}
